@@ -8,6 +8,7 @@ package app
 import (
 	"bytes"
 	"fmt"
+	"math"
 	"regexp"
 	"sort"
 	"strconv"
@@ -296,6 +297,30 @@ func TestVerifC04(t *testing.T) {
 						rep.AddExecs(2)
 						if r1.Code != r2.Code || (r1.Code == 200 && !bytes.Equal(r1.Body, r2.Body)) {
 							rep.Violate("C04.avail", "timeoffset-not-a-clock-shift", fmt.Sprintf("%s answers %d %q, %s answers %d %q", u1, r1.Code, vTrim(r1.Body), u2, r2.Code, vTrim(r2.Body)), map[string]any{"url": u1, "plain": u2})
+						}
+					}
+				}
+			}
+			// ... also around the start of a stream that begins near the request instant (start_100): the instants at which
+			// the shifted and the unshifted clock pass the stream start and the first segments' availability instants
+			for _, x := range []string{"1.001", "2.5", "-1.001", "8.115", "10", "-3"} {
+				f, _ := strconv.ParseFloat(x, 64)
+				ms := int64(math.Round(f * 1000))
+				for _, pre := range []string{"start_100/", "start_100/ato_inf/", "start_100/segtimeline_1/"} {
+					for _, d := range []int64{-ms - 1, -ms, -ms + 1, -1, 0, 1, 2000 - ms - 1, 2000 - ms, 2000 - ms + 1, 1999, 2000, 2001, 4000 - ms, 4000} {
+						t := 100_000 + d
+						for _, name := range []string{"V300/0.m4s", "A48/0.m4s", "V300/1.m4s", "Manifest.mpd"} {
+							if strings.Contains(pre, "segtimeline") && !strings.HasSuffix(name, ".mpd") {
+								continue
+							}
+							u1 := fmt.Sprintf("/livesim2/%stimeoffset_%s/testpic_2s/%s?nowMS=%d", pre, x, name, t)
+							u2 := fmt.Sprintf("/livesim2/%stestpic_2s/%s?nowMS=%d", pre, name, t+ms)
+							r1, r2 := vGet(srv, u1), vGet(srv, u2)
+							rep.Hit("C04.mono")
+							rep.AddExecs(2)
+							if r1.Code != r2.Code || ((r1.Code == 200 || r1.Code == 425) && !bytes.Equal(r1.Body, r2.Body)) {
+								rep.Violate("C04.avail", "timeoffset-not-a-clock-shift:near-stream-start", fmt.Sprintf("%s answers %d %q, %s answers %d %q", u1, r1.Code, vTrim(r1.Body), u2, r2.Code, vTrim(r2.Body)), map[string]any{"url": u1, "plain": u2})
+							}
 						}
 					}
 				}
